@@ -85,19 +85,38 @@ def parseDraws (s : String) : Option (List Nat) :=
 
 def groupStr (os : List Out) : String := ";".intercalate (os.map outStr)
 
+def insertSorted (x : String) : List String → List String
+  | [] => [x]
+  | y :: ys => if x ≤ y then x :: y :: ys else y :: insertSorted x ys
+
+def sortStrings (l : List String) : List String := l.foldr insertSorted []
+
+/-- the tables of both managers at the end of the script, in a canonical order -/
+def stateStr (s : State) : String :=
+  let j (l : List String) := ",".intercalate (sortStrings l)
+  let ex := if s.shutMsg then [] else s.exchanges.map fun e => s!"{e.remote}:{e.msg.mid}:{e.counter}"
+  let bl := if s.shutMsg then [] else s.backlogs.map fun b => s!"{b.1}:{b.2.length}"
+  let pg := s.piggy.map fun p => s!"{p.remote}:{bytesToHex p.token}:{p.mid}"
+  let rc := s.recent.map fun r => s!"{r.remote}:{r.mid}:{if r.reply.isSome then 1 else 0}"
+  let og := s.outgoing.map fun o => s!"{bytesToHex o.token}:{match o.remote with | some r => toString r | none => "m"}"
+  let ic := s.incoming.map fun i => s!"{bytesToHex i.token}:{i.remote}"
+  s!"ex={j ex} bl={j bl} pg={j pg} rc={j rc} og={j og} ic={j ic}"
+
 /-- process the script; `cur` is the open group (outputs since the last input event).  Group 0
 holds what happens before the first input, group i the outputs of input i and of the timers
-that fire after it and before the next input. -/
-def runScript (s : State) (cur : List Out) : List (Nat × Option Ev) → List String × Bool × State
-  | [] => ([groupStr cur], false, s)
+that fire after it and before the next input.  Each group is closed with the state of both
+managers' tables at that moment (just before the next input event): `outs~state`. -/
+def runScript (st : State → String) (s : State) (cur : List Out) :
+    List (Nat × Option Ev) → List String × Bool × State
+  | [] => ([groupStr cur ++ "~" ++ st s], false, s)
   | (t, ev) :: rest =>
     let (s1, o1, _) := advance 100000 s t
     let tie := tiesAt s1 t > 0
     let (s2, o2) := match ev with
       | some e => step s1 { time := t, ev := e }
       | none => ({ s1 with now := t }, [])
-    let (gs, tie', s3) := runScript s2 o2 rest
-    (groupStr (cur ++ o1) :: gs, tie || tie', s3)
+    let (gs, tie', s3) := runScript st s2 o2 rest
+    ((groupStr (cur ++ o1) ++ "~" ++ st s1) :: gs, tie || tie', s3)
 
 def handleMsgLayer (args : List String) : String :=
   match args with
@@ -105,7 +124,7 @@ def handleMsgLayer (args : List String) : String :=
     match el.toNat?, ead.toNat?, mid.toNat?, tok.toNat?, parseDraws draws, evs.mapM parseEvent with
     | some el, some ead, some mid, some tok, some draws, some evs =>
       let s0 := init { exchangeLifetime := el, emptyAckDelay := ead } mid tok (fun i => draws.getD i 0)
-      let (gs, tie, sf) := runScript s0 [] evs
+      let (gs, tie, sf) := runScript stateStr s0 [] evs
       (if sf.drawIdx > draws.length then "STARVED " else "") ++ (if tie then "TIE " else "") ++ "|".intercalate gs
     | _, _, _, _, _, _ => "bad-op"
   | _ => "bad-op"
